@@ -60,8 +60,9 @@ Definition opening (s : string) : option (string * option ascii) :=
   if String.eqb s "(" then Some (")", None)
   else if String.eqb s "<" then Some (">", None)
   else match s with
-       | String "^" (String c EmptyString) =>
-           if existsb (Ascii.eqb c) caret_bracket_chars then Some (String c EmptyString, Some c) else None
+       | String c0 (String c EmptyString) =>
+           if Ascii.eqb c0 "^" && existsb (Ascii.eqb c) caret_bracket_chars
+           then Some (String c EmptyString, Some c) else None
        | _ => None
        end.
 
@@ -69,7 +70,7 @@ Definition opening (s : string) : option (string * option ascii) :=
 (* (~terminator + colon)(ctx, maybe=True) after a name: a colon that is not a terminator is taken *)
 Definition take_colon (terms : list ascii) (ts : list token) : bool * list token :=
   match ts with
-  | TP ":" :: rest => if terminated terms ":" then (false, ts) else (true, rest)
+  | TP p :: rest => if String.eqb p ":" && negb (terminated terms ":") then (true, rest) else (false, ts)
   | _ => (false, ts)
   end.
 
@@ -83,8 +84,9 @@ Definition parse_literal (terms : list ascii) (ts : list token) : pres (ptree * 
       | LexRadCrash site => PCrash site
       | LexRadOutside => PNo
       end
-  | TP "-" :: TNum s :: rest =>
+  | TP p :: TNum s :: rest =>
       (* number() takes the minus sign; a following colon makes it a label, which cannot be negated *)
+      if negb (String.eqb p "-") then PNo else
       if fst (take_colon terms rest) then PNo else
       match lex_number true s with
       | LexNum v i8 rep => POk (PNum v i8 rep, rest)
@@ -133,7 +135,8 @@ Fixpoint call_loop (n : nat) (terms : list ascii) (value : ptree) (ts : list tok
   | O => PFuel
   | S n' =>
       match ts with
-      | TP "(" :: rest =>
+      | TP p :: rest =>
+          if negb (String.eqb p "(") then POk (value, ts) else
           match bracketed terms ")" None rest with
           | POk (e, rest') => call_loop n' terms (PCall value e) rest'
           | PNo => PNo
@@ -236,7 +239,7 @@ Fixpoint prefix_phase (n : nat) (terms : list ascii) (ops : list op_row) (ts : l
               | None =>
                   (* Parser.regex(r"\^\S"): a caret followed by anything is 'an invalid prefix operator' *)
                   match s with
-                  | String "^" (String _ _) => PCrit "invalid-expression"
+                  | String c0 (String _ _) => if Ascii.eqb c0 "^" then PCrit "invalid-expression" else fail
                   | _ => fail
                   end
               end
